@@ -92,7 +92,8 @@ def run_impl(case):
     async def f(*args, **kwargs):
         inv.append((args, dict(kwargs)))
         await asyncio.sleep(0)
-        return ('r', len(inv) - 1)
+        # every other result is falsy: a cached value is a value whatever its truth value
+        return (FalsyRes if len(inv) % 2 else tuple)(('r', len(inv) - 1))
     g = threadsafe_async_cache(f, cache=store) if kind != 'default' else threadsafe_async_cache(f)
     rets = []
     ops_model = []
@@ -268,6 +269,11 @@ def _chunk(payload):
                 break
     flush()
     return out
+
+
+class FalsyRes(tuple):
+    def __bool__(self):
+        return False
 
 
 def unhashable(out):
